@@ -8,9 +8,9 @@
 #include <dlfcn.h>
 
 /* ---- RAND_bytes tape: the library's calls to RAND_bytes resolve to this definition ---- */
-static uint8_t *tape = NULL;
-static size_t tape_len = 0, tape_pos = 0;
-size_t hx_rand_calls = 0;
+static __thread uint8_t *tape = NULL;
+static __thread size_t tape_len = 0, tape_pos = 0;
+static __thread size_t hx_rand_calls = 0;
 
 int
 RAND_bytes(unsigned char *buf, int num)
@@ -45,7 +45,7 @@ static json_t *
 op_enc_jwk(json_t *args)
 {
     json_t *jwe = json_deep_copy(hx_arg(args, "jwe"));
-    json_t *rcp = json_deep_copy(hx_arg(args, "rcp"));
+    json_t *rcp = hx_tmpl(args, "rcp");
     json_t *cek = json_deep_copy(hx_arg(args, "cek"));
     bool ok;
     json_t *res;
@@ -86,7 +86,7 @@ static json_t *
 op_enc(json_t *args)
 {
     json_t *jwe = json_deep_copy(hx_arg(args, "jwe"));
-    json_t *rcp = json_deep_copy(hx_arg(args, "rcp"));
+    json_t *rcp = hx_tmpl(args, "rcp");
     size_t ptl = 0;
     uint8_t *pt = hx_arg_hex(args, "pt", &ptl);
     bool ok;
